@@ -166,6 +166,19 @@ def run(ctx):
                 continue
             settings = [("default", None), ("scalar0.37", 0.37), ("generic", rng.uniform(-0.5, 0.5, size=B)), ("generic2", rng.uniform(-0.5, 0.5, size=B))]
             seed = int(rng.integers(2 ** 31)); np.random.seed(seed); settings.append((f"random_offsets(seed={seed})", qc.random_offsets(B)))
+            if B >= 5 and n_lines in (6, 8):
+                # generic, but only just: one line of bundle 2 misses the crossing of the middle lines of bundles 0 and 1 by eps line spacings (the exclusion
+                # threshold for 'three lines through a point' is 1e-9)
+                for eps in (1e-8, 3e-8) if quick else (3e-9, 1e-8, 3e-8, 1e-7, 1e-6):
+                    g = rng.uniform(-0.5, 0.5, size=B)
+                    ang = np.arange(B) * 2 * np.pi / B
+                    nor = np.stack([np.cos(ang + np.pi / 2), np.sin(ang + np.pi / 2)], 1)
+                    lo = np.arange(n_lines) - (n_lines - 1) // 2
+                    mid = n_lines // 2
+                    P = np.linalg.solve(nor[:2], np.array([lo[mid] + g[0], lo[mid] + g[1]]))
+                    tt = P @ nor[2] + eps
+                    g[2] = tt - np.round(tt)
+                    settings.append((f"near-concurrent(eps={eps})", g))
             for oname, off in settings:
                 for disorder in ((0,) if quick and oname != "generic" else (0, 0.02, 0.1)):
                     seed = int(rng.integers(2 ** 31))
